@@ -815,74 +815,213 @@ func checkErrorRecording(c *core.Ctx, p *load.Prog) {
 		}
 		n++
 		name := fd.Name.Name
-		// (a) some `err != nil` arm records the error itself and returns
-		recorded := false
-		ast.Inspect(fd.Body, func(m ast.Node) bool {
-			ifs, ok := m.(*ast.IfStmt)
-			if !ok {
-				return true
+		// (a)+(b) by paths: E is the error of the read. Conditions passed refine
+		// what is known about E (nil or not, io.EOF or not). A path that leaves the
+		// function, or comes round to the next read, with E possibly a failure
+		// other than io.EOF must have called addError(E); addError(io.EOF) may
+		// only be reached where E is known to be io.EOF.
+		recorded, okSentinel := true, true
+		whyRec := ""
+		if f := buildCFG(p, pkg, fd); f != nil {
+			info := pkg.TypesInfo
+			isE := func(e ast.Expr) bool {
+				id, ok := ast.Unparen(e).(*ast.Ident)
+				return ok && errVars[info.ObjectOf(id)]
 			}
-			// `<err> != nil [&& …]` on the error of the read
-			first := ast.Unparen(ifs.Cond)
-			for {
-				be, isB := first.(*ast.BinaryExpr)
-				if !isB || be.Op != token.LAND {
-					break
-				}
-				first = ast.Unparen(be.X)
-			}
-			ev, isErr := errNilTest(pkg.TypesInfo, first)
-			if isErr && errVars[ev] && endsInReturn(ifs.Body) {
-				if containsCall(ifs.Body, func(call *ast.CallExpr) bool {
-					if !isMethodCall(call, "tr", "addError") || len(call.Args) != 1 {
-						return false
-					}
-					id, ok := ast.Unparen(call.Args[0]).(*ast.Ident)
-					return ok && pkg.TypesInfo.ObjectOf(id) == ev
-				}) {
-					recorded = true
-				}
-			}
-			return true
-		})
-		c.Check("R6", name+" records a failing read of the underlying reader as an error", p.Pos(fd.Pos()), recorded,
-			"no `if err != nil { tr.addError(err); return }` arm follows the read: a reader failure is lost or mistaken for the end of the input")
-		// (b) the EOF sentinel is added only under err == io.EOF
-		okSentinel := true
-		var walk func(nd ast.Node, underEOF bool)
-		walk = func(nd ast.Node, underEOF bool) {
-			ast.Inspect(nd, func(m ast.Node) bool {
-				switch x := m.(type) {
-				case *ast.IfStmt:
-					isEOF := isEOFTest(pkg.TypesInfo, x.Cond)
-					if x.Init != nil {
-						walk(x.Init, underEOF)
-					}
-					walk(x.Body, underEOF || isEOF)
-					if x.Else != nil {
-						walk(x.Else, underEOF)
-					}
+			isReadAssign := func(n ast.Node) bool {
+				as, ok := n.(*ast.AssignStmt)
+				if !ok || len(as.Rhs) != 1 {
 					return false
-				case *ast.CaseClause:
-					isEOF := false
-					for _, e := range x.List {
-						if isEOFTest(pkg.TypesInfo, e) || wire.Canon(e) == "io.EOF" {
-							isEOF = true
+				}
+				call, ok := as.Rhs[0].(*ast.CallExpr)
+				if !ok {
+					return false
+				}
+				fn := trCanon(call.Fun)
+				return fn == "tr.readByte" || fn == "tr.r.ReadRune" || fn == "tr.r.ReadBytes"
+			}
+			// what is known about E is the set of cases still possible:
+			// nil, io.EOF, or some other failure
+			const (
+				wNil   = 1
+				wEOF   = 2
+				wOther = 4
+				wAll   = 7
+			)
+			type st int
+			// three-valued evaluation of a condition in one case
+			const (
+				vF = 1
+				vT = 2
+				vB = 3
+			)
+			var eval func(cond ast.Expr, w int) int
+			eval = func(cond ast.Expr, w int) int {
+				cond = ast.Unparen(cond)
+				switch x := cond.(type) {
+				case *ast.UnaryExpr:
+					if x.Op == token.NOT {
+						switch eval(x.X, w) {
+						case vT:
+							return vF
+						case vF:
+							return vT
+						}
+						return vB
+					}
+				case *ast.CallExpr:
+					if wire.Canon(x.Fun) == "errors.Is" && len(x.Args) == 2 && isE(x.Args[0]) && wire.Canon(x.Args[1]) == "io.EOF" {
+						if w == wEOF {
+							return vT
+						}
+						if w == wNil {
+							return vF
+						}
+						return vB
+					}
+				case *ast.BinaryExpr:
+					switch x.Op {
+					case token.LAND:
+						a, b := eval(x.X, w), eval(x.Y, w)
+						if a == vF || b == vF {
+							return vF
+						}
+						if a == vT && b == vT {
+							return vT
+						}
+						return vB
+					case token.LOR:
+						a, b := eval(x.X, w), eval(x.Y, w)
+						if a == vT || b == vT {
+							return vT
+						}
+						if a == vF && b == vF {
+							return vF
+						}
+						return vB
+					case token.EQL, token.NEQ:
+						if !isE(x.X) {
+							return vB
+						}
+						r := vB
+						switch wire.Canon(x.Y) {
+						case "nil":
+							r = vF
+							if w == wNil {
+								r = vT
+							}
+						case "io.EOF":
+							r = vF
+							if w == wEOF {
+								r = vT
+							}
+						default:
+							// another sentinel: only the "other" case can equal it
+							if w != wOther {
+								r = vF
+							}
+						}
+						if x.Op == token.NEQ && r != vB {
+							r = vT + vF - r
+						}
+						return r
+					}
+				}
+				return vB
+			}
+			refine := func(cond ast.Expr, truth bool, s st) st {
+				out := 0
+				for _, w := range []int{wNil, wEOF, wOther} {
+					if int(s)&w == 0 {
+						continue
+					}
+					v := eval(cond, w)
+					if (truth && v&vT != 0) || (!truth && v&vF != 0) {
+						out |= w
+					}
+				}
+				return st(out)
+			}
+			type key struct {
+				b    *cfg.Block
+				from int
+				s    st
+				rec  bool
+			}
+			seen := map[key]bool{}
+			tagged := caseConds(fd)
+			mayFail := func(s st) bool { return int(s)&wOther != 0 }
+			var walk func(b *cfg.Block, from int, s st, rec bool)
+			walk = func(b *cfg.Block, from int, s st, rec bool) {
+				k := key{b, from, s, rec}
+				if seen[k] {
+					return
+				}
+				seen[k] = true
+				for i := from; i < len(b.Nodes); i++ {
+					n := b.Nodes[i]
+					if isReadAssign(n) {
+						// the next read overwrites E
+						if mayFail(s) && !rec {
+							recorded = false
+							whyRec = "the next read at " + p.Pos(n.Pos()) + " is reached with the previous failure unrecorded"
+						}
+						return
+					}
+					ast.Inspect(n, func(m ast.Node) bool {
+						call, ok := m.(*ast.CallExpr)
+						if !ok || !isMethodCall(call, "tr", "addError") || len(call.Args) != 1 {
+							return true
+						}
+						if wire.Canon(call.Args[0]) == "io.EOF" {
+							// the clean-end sentinel: only where E is known to be io.EOF
+							if int(s) != wEOF {
+								okSentinel = false
+							}
+						} else {
+							// E itself, or an error standing for it
+							rec = true
+						}
+						return true
+					})
+					if r, ok := n.(*ast.ReturnStmt); ok {
+						if mayFail(s) && !rec {
+							recorded = false
+							whyRec = "return at " + p.Pos(r.Pos()) + " is reached with a possibly failing read unrecorded"
+						}
+						return
+					}
+				}
+				if len(b.Succs) == 2 {
+					if cond := blockCond(b); cond != nil {
+						if full, isCase := tagged[cond]; isCase {
+							cond = full
+						}
+						walk(b.Succs[0], 0, refine(cond, true, s), rec)
+						walk(b.Succs[1], 0, refine(cond, false, s), rec)
+						return
+					}
+				}
+				if len(b.Succs) == 0 && mayFail(s) && !rec {
+					recorded = false
+					whyRec = "the function ends with a possibly failing read unrecorded"
+				}
+				for _, nx := range b.Succs {
+					walk(nx, 0, s, rec)
+				}
+			}
+			for _, b := range f.g.Blocks {
+				for i, n := range b.Nodes {
+					if isReadAssign(n) {
+						if as := n.(*ast.AssignStmt); len(as.Lhs) >= 2 && isE(as.Lhs[len(as.Lhs)-1]) {
+							walk(b, i+1, st(wAll), false)
 						}
 					}
-					for _, st := range x.Body {
-						walk(st, underEOF || (isEOF && len(x.List) == 1))
-					}
-					return false
-				case *ast.CallExpr:
-					if isMethodCall(x, "tr", "addError") && len(x.Args) == 1 && wire.Canon(x.Args[0]) == "io.EOF" && !underEOF {
-						okSentinel = false
-					}
 				}
-				return true
-			})
+			}
 		}
-		walk(fd.Body, false)
+		c.Check("R6", name+" records a failing read of the underlying reader as an error", p.Pos(fd.Pos()), recorded,
+			whyRec+": a reader failure is lost or mistaken for the end of the input")
 		c.Check("R6", name+" adds the end-of-input sentinel only for io.EOF", p.Pos(fd.Pos()), okSentinel,
 			"addError(io.EOF) is reachable for an error that was not tested to be io.EOF: Next() pops that sentinel and reports a clean end of input, so a failing reader truncates the File without an error")
 	}
@@ -919,9 +1058,18 @@ func checkBlockCommentLength(c *core.Ctx, p *load.Prog) {
 	// the byte variable read in the loop
 	var readVar types.Object
 	ast.Inspect(fd.Body, func(n ast.Node) bool {
-		if as, ok := n.(*ast.AssignStmt); ok && len(as.Rhs) == 1 && isMethodCall(as.Rhs[0], "tr", "readByte") && len(as.Lhs) == 2 {
-			if id, ok := as.Lhs[0].(*ast.Ident); ok {
-				readVar = info.ObjectOf(id)
+		// the byte of this iteration: first result of a call on the token reader that yields a byte
+		if as, ok := n.(*ast.AssignStmt); ok && len(as.Rhs) == 1 && len(as.Lhs) == 2 {
+			if call, isC := as.Rhs[0].(*ast.CallExpr); isC {
+				if cal := load.Callee(info, call); cal != nil {
+					if sig, okS := cal.Type().(*types.Signature); okS && sig.Recv() != nil && strings.HasSuffix(sig.Recv().Type().String(), ".tokenReader") && sig.Results().Len() == 2 {
+						if b, isB := sig.Results().At(0).Type().Underlying().(*types.Basic); isB && b.Kind() == types.Uint8 {
+							if id, ok := as.Lhs[0].(*ast.Ident); ok {
+								readVar = info.ObjectOf(id)
+							}
+						}
+					}
+				}
 			}
 		}
 		return true
